@@ -217,7 +217,12 @@ func (b *MirroredBuffer) Commit(n int) int {
 		n = free
 	}
 	b.used += n
-	b.tail = (b.tail + n) & b.sizeMask
+	// Wrap around the ring. The size is a multiple of the page size but not necessarily a power of two (e.g. 3 pages),
+	// so masking with size-1 is wrong; n <= size, hence one subtraction is enough.
+	b.tail += n
+	if b.tail >= b.size {
+		b.tail -= b.size
+	}
 	return n
 }
 
@@ -229,7 +234,11 @@ func (b *MirroredBuffer) Consume(n int) int {
 		return 0
 	}
 	b.used -= n
-	b.head = (b.head + n) & b.sizeMask
+	// See Commit for why this is not a mask.
+	b.head += n
+	if b.head >= b.size {
+		b.head -= b.size
+	}
 	return n
 }
 
